@@ -66,6 +66,10 @@ func (p *prop) Generate(rng *core.Rand, tier string, emit func(string)) {
 	for i := 0; i < nSort/16; i++ {
 		emit(genVarCase(rgl))
 	}
+	// ---- bind values → servers (listen / listen_protocols) through the whole adapter vs model
+	for i := 0; i < nSite/2; i++ {
+		emit(genBindCase(rgl))
+	}
 	// ---- token-level mutations of the corpus
 	rm := rng.Fork()
 	for i := 0; i < nMut && len(p.corpus) > 0; i++ {
